@@ -979,6 +979,13 @@ class Executor:
             return S("fp", e.fp_const(c))
         if c == "()":
             return Unit()
+        m = re.match(r"^'(\\?.|\\u\{[0-9a-fA-F]+\})'$", c, re.S)
+        if m and getattr(self, "char_consts_as_int", False):       # opt-in (the lexer obligations); elsewhere a char constant stays an opaque text atom
+            t = m.group(1)
+            esc = {"\\n": 10, "\\t": 9, "\\r": 13, "\\0": 0, "\\'": 39, "\\\\": 92, '\\"': 34}
+            n = esc.get(t) if t in esc else (int(t[3:-1], 16) if t.startswith("\\u{") else (ord(t) if len(t) == 1 else None))
+            if n is not None:
+                return S("int", e.int_const(n), e.int_bits, False)
         item = self.p.fns.get(c) or self.p.fns.get("incan_core::" + c)
         if item is None:
             pm = re.match(r"^(?:.*::)?(\w+(?:::\{closure#\d+\})*)::promoted\[(\d+)\]$", c)
